@@ -48,6 +48,8 @@ pub fn c16_history() {
     let mut created = [false, false];
     let mut snapshotted = [false, false];
     let mut booted_with_discarded_log = false;
+    // a key-map snapshot (explicit snapshot or clean shutdown) was requested since this node started
+    let mut key_snapshot_since_boot = false;
     if vsym::param("prefix", 0) == 1 {
         // first phase: database da exists, holds key k0 and was persisted (key map saved, op-log valid)
         process_request("create-db da tok", &node.dbs, &mut admin);
@@ -85,15 +87,18 @@ pub fn c16_history() {
                 let r = process_request(&["snapshot false ", dbnames[d]].concat(), &node.dbs, &mut admin);
                 poll_once(&mut node.repl);
                 snapshot_all_pendding_dbs(&node.dbs);
+                key_snapshot_since_boot = true;
                 vsym::tag("snapshotted");
             }
         } else {
             // restart: clean (safe_shutdown first) or kill
             poll_once(&mut node.repl);
             if (created[0] && !snapshotted[0]) || (created[1] && !snapshotted[1]) { vsym::tag("restart-with-a-database-never-snapshotted"); }
-            if booted_with_discarded_log && !node.dbs.is_oplog_valid.load(vstd::sync::atomic::Ordering::Relaxed) { vsym::tag("previous-boot-discarded-the-log-and-no-key-snapshot-since"); }
             let clean = vsym::any_bool("clean-shutdown");
-            if clean { crate::db_ops::safe_shutdown(&node.dbs); }
+            if clean { crate::db_ops::safe_shutdown(&node.dbs); key_snapshot_since_boot = true; }
+            // recorded finding C16-missing-flag-file-reads-as-valid: decided from the HISTORY (was a key-map snapshot requested in this
+            // life?), not from the node's own flag - a change that makes the snapshot skip its work must not hide behind the finding
+            if booted_with_discarded_log && !key_snapshot_since_boot { vsym::tag("previous-boot-discarded-the-log-and-no-key-snapshot-since"); }
             // what every record of the log means to the node that wrote it
             let before = read_log();
             let mut meaning: Vec<(String, String)> = Vec::new();
@@ -110,6 +115,7 @@ pub fn c16_history() {
             }
             node = boot("n1");
             booted_with_discarded_log = !node.dbs.is_oplog_valid.load(vstd::sync::atomic::Ordering::Relaxed);
+            key_snapshot_since_boot = false;
             vsym::tag(if clean { "clean-restart" } else { "kill-restart" });
             let r = admin_client(&node.dbs); admin = r.0; arx = r.1;
             created = [node.dbs.has_db("da"), node.dbs.has_db("db")]; snapshotted = created;
